@@ -1,4 +1,5 @@
 import OmbottModel.Model.Forms
+import OmbottModel.Model.FormsShared
 import OmbottModel.Model.BodyAccess
 import OmbottModel.Lemmas.FormsRoundtrip
 import OmbottModel.Props.C06
@@ -230,7 +231,83 @@ theorem parts_disjoint (boundary : Str) (fields : List Field) (epilogue : Bytes)
       refine ⟨rfl, ⟨n, fn, fieldHeaders (.file n fn ct c), ((r.1 : Int), (r.2 : Int))⟩, ?_, rfl⟩
       exact (itemOf_fieldS (.file n fn ct c) hok _ _).1
 
+
+/-! ### several uploads over one buffered body: interleaved reads (`Model/FormsShared.lean`) -/
+
+/-- one operation on a window over the SHARED source (a file object with a cursor that the other windows and
+`request.body` move too) gives the output and the window state of the cursor-free model, whatever the cursor was,
+and leaves the content of the source alone -/
+theorem step_shared_eq_alone (p : Proxy) (s : Src) (op : WOp) :
+    ((stepWin p s op).1, (stepWin p s op).2.1) = stepAlone p s.body s.spooled op ∧
+    (stepWin p s op).2.2.body = s.body ∧ (stepWin p s op).2.2.spooled = s.spooled := by
+  cases op with
+  | tell => exact ⟨rfl, rfl, rfl⟩
+  | seek pos wh =>
+    simp only [stepWin, stepAlone]
+    cases p.seek pos wh <;> exact ⟨rfl, rfl, rfl⟩
+  | read sz =>
+    simp only [stepWin, stepAlone, Proxy.readS, Proxy.read, Src.seek, Src.read, srcRead]
+    by_cases h1 : p.en - p.pos ≤ 0
+    · simp [h1]
+    · by_cases h2 : p.pos < 0
+      · simp [h1, h2]
+      · simp [h1, h2]; exact ⟨rfl, rfl⟩
+
+/-- **no byte of one part appears in another, however the handler reads**: for every set of windows over one buffered
+body, every interleaving of partial reads / seeks / tells on them and of reads and seeks on the body itself, the
+outputs of window `i` are exactly those of its own operations run on that window alone -/
+theorem interleaving_invisible (ops : List SOp) : ∀ (wins : List Proxy) (s : Src) (i : Nat) (p : Proxy),
+    wins[i]? = some p →
+    (runShared wins s ops).filterMap (tagOf i) = runAlone p s.body s.spooled (ops.filterMap (opsOf i)) := by
+  induction ops with
+  | nil => intros; rfl
+  | cons o ops ih =>
+    intro wins s i p h
+    cases o with
+    | srcRead sz =>
+      simp only [runShared, List.filterMap_cons, tagOf, opsOf]
+      have := ih wins (s.read sz).2 i p h
+      simpa [tagOf, Src.read] using this
+    | srcSeek pos =>
+      simp only [runShared, List.filterMap_cons, tagOf, opsOf]
+      have := ih wins { s with cur := pos } i p h
+      simpa [tagOf] using this
+    | win j op =>
+      cases hj : wins[j]? with
+      | none =>
+        have hne : j ≠ i := by intro e; subst e; rw [h] at hj; cases hj
+        simp only [runShared, hj, List.filterMap_cons, opsOf, if_neg hne]
+        exact ih wins s i p h
+      | some q =>
+        obtain ⟨h1, h2, h3⟩ := step_shared_eq_alone q s op
+        by_cases hji : j = i
+        · subst hji
+          have hq : q = p := by rw [h] at hj; cases hj; rfl
+          subst hq
+          have hlt : j < wins.length := by
+            rcases Nat.lt_or_ge j wins.length with hl | hl
+            · exact hl
+            · rw [List.getElem?_eq_none hl] at h; cases h
+          have hset : (wins.set j (stepWin q s op).2.1)[j]? = some (stepWin q s op).2.1 := by
+            rw [List.getElem?_set_self hlt]
+          have := ih (wins.set j (stepWin q s op).2.1) (stepWin q s op).2.2 j (stepWin q s op).2.1 hset
+          simp only [runShared, hj, List.filterMap_cons, opsOf, if_true, tagOf, runAlone]
+          rw [← h1]
+          rw [this, h2, h3]
+        · have hset : (wins.set j (stepWin q s op).2.1)[i]? = some p := by
+            rw [List.getElem?_set_ne hji]; exact h
+          have := ih (wins.set j (stepWin q s op).2.1) (stepWin q s op).2.2 i p hset
+          have hne : ¬ (some j = some i) := by intro e; cases e; exact hji rfl
+          simp only [runShared, hj, List.filterMap_cons, opsOf, if_neg hji, tagOf, if_neg hne]
+          rw [this, h2, h3]
+
 section NonVacuity
+/-- `interleaving_invisible`: two windows over a 12-byte body; window 0 exists and is read in two blocks around a read
+of window 1 and a read of the body -/
+example : ([Proxy.new 2 6, Proxy.new 8 12] : List Proxy)[0]? = some (Proxy.new 2 6) := rfl
+example : runShared [Proxy.new 2 6, Proxy.new 8 12] ⟨[0, 1, 2, 3, 4, 5, 6, 7, 8, 9, 10, 11], false, 0⟩
+    [.win 0 (.read (some 2)), .win 1 (.read (some 3)), .srcRead 1, .win 0 (.read none)] =
+    [(some 0, .bytes [2, 3]), (some 1, .bytes [8, 9, 10]), (none, .bytes [11]), (some 0, .bytes [4, 5])] := by decide
 
 /-- the example of the property text: a text field named `f;x=y` and an upload `q;z=1.txt` whose
 content looks like the delimiter, boundary `b d` (needs quoting) -/
